@@ -509,6 +509,9 @@ func VerifWatchDeviations() {
 		sts[0].stallAt = cycles*perCycle + 1 + verifrt.Choice("stall-at", perCycle)
 	case 3:
 		sts[0].cancelAt = cycles*perCycle + 1 + verifrt.Choice("cancel-at", perCycle)
+	case 4:
+		// ANOTHER client (1) is the stalled consumer; client 0 is healthy and simply leaves
+		sts[1].stallAt = cycles*perCycle + 1 + verifrt.Choice("stall-at", perCycle)
 	}
 	verifrt.AwaitQuiescence()
 	verifrt.Assert(ds.VerifDeviationClients() == clients, "C19-watchdeviations-registered")
@@ -553,6 +556,30 @@ func VerifWatchDeviations() {
 		if sts[0].failed > 0 {
 			verifrt.Reach("cycle-in-flight-at-cancel")
 		}
+	}
+
+	if stall == 4 {
+		verifrt.Advance(v19DevPeriod)
+		verifrt.AwaitQuiescence()
+		verifrt.Assert(sts[1].stalled > 0, "C19-watchdeviations-other-client-stalled")
+		verifrt.Reach("other-client-stalled")
+		// client 0 leaves while the cycle is stuck in the Send to client 1: its RPC ends with
+		// its client, it does not have to wait for the stalled peer
+		cancels[0]()
+		verifrt.AwaitQuiescence()
+		verifrt.Reach("client-left")
+		verifrt.Assert(sts[0].over, "C19-watchdeviations-returns-despite-stalled-peer")
+		verifrt.Assert(ds.VerifDeviationClients() == clients-1, "C19-watchdeviations-deregistered")
+		for _, cancel := range cancels[1:] {
+			cancel()
+		}
+		dsStop()
+		verifrt.AwaitQuiescence()
+		for _, st := range sts {
+			verifrt.Assert(st.over, "C19-watchdeviations-returns")
+		}
+		verifrt.Assert(v19Goroutines() == 0, "C19-watchdeviations-no-goroutine-left")
+		return
 	}
 
 	// client 0 leaves
